@@ -14,7 +14,8 @@
    proved under the guard of c16_partial. *)
 From Coq Require Import List ZArith NArith String Bool.
 Import ListNotations.
-From Verif Require Import Common.Base Model.Fmtp Model.Codec Model.Section Proofs.Codec Proofs.Answer.
+From Verif Require Import Common.Base Model.Fmtp Model.Codec Model.HeaderExt Model.Section Model.CodecAssoc
+     Proofs.Codec Proofs.Answer Proofs.CodecHist Proofs.CodecAssoc.
 Open Scope string_scope.
 
 (* witness: VP8 registered and preferred under payload type 96, offered under
@@ -90,6 +91,65 @@ Theorem c16_compatible_partial_meaning : forall o r,
 Proof. exact partial_ok_spelled. Qed.
 Print Assumptions c16_compatible_partial_meaning.
 
+(* ---------- histories of answered offers, transceiver matching inside the step ---------- *)
+
+(* Model/CodecAssoc.v: the media state of a PeerConnection (engine, header
+   extensions, transceivers with mid / kind / direction / sender, their
+   preference lists) under AddTransceiverFromKind+SetCodecPreferences and
+   exchanges SetRemoteDescription(offer); CreateAnswer; SetLocalDescription.
+   Which transceiver answers which offered section is computed by the model
+   (findByMid, satisfyTypeAndDirection, creation from the remote description),
+   not assumed.
+
+   For every registration, every history os of such steps and every further
+   offer, provided that
+     - an offered section with mid m is of the same kind K m in every offer,
+     - every offered section of kind k lists the same codecs R k (the
+       generalisation of "the only section of its kind": the negotiated lists
+       are shared by all sections of a kind and by all descriptions),
+     - local transceivers get preference lists with payload type 0 throughout
+       (or none),
+   the answer has one section per offered section that is not skipped, in offer
+   order, produced by a transceiver that carries that section's mid, and every
+   codec it lists is offered in that very section under the same payload type
+   for a compatible codec. *)
+Theorem c16_hist_partial : forall K R video audio multi x os offer s' l,
+  Forall (mop_ok K R) os -> offer_ok K R offer ->
+  exchange (run_mops (new_mpc (new_engine video audio multi) x) os) offer = (s', Ok l) ->
+  exists s1 assoc,
+    srd_offer (run_mops (new_mpc (new_engine video audio multi) x) os) offer = (s1, Ok tt) /\
+    assoc_of s1 offer = Ok assoc /\
+    Forall2 (fun oi sec => section_answers (fst oi) sec) assoc l /\
+    (forall o i, In (o, i) assoc ->
+       exists j t, nth_error offer j = Some o /\ os_kind o <> KUnknown /\
+                   nth_error (m_trs s1) i = Some t /\ AD.t_mid t = Some j).
+Proof. exact history_answers_offered. Qed.
+Print Assumptions c16_hist_partial.
+
+(* the invariant behind it, for any state: transceivers with a mid are of the
+   kind of that mid, the negotiated lists hold offered codecs only, every
+   preference entry has payload type 0 or an offered payload type for a
+   compatible codec -- kept by every step of such a history *)
+Theorem c16_hist_invariant : forall K R os s,
+  minv K R s -> Forall (mop_ok K R) os -> minv K R (run_mops s os).
+Proof. exact minv_run. Qed.
+Print Assumptions c16_hist_invariant.
+
+(* what SetRemoteDescription's matching does to the transceiver list, for all
+   lists and offers: positions keep kind, sender and a mid they have; a
+   transceiver that carries a mid is of that mid's kind afterwards if that held
+   before; every appended transceiver was created for a section that is not
+   skipped, carries its mid, is of its kind and has no sender *)
+Theorem c16_matching : forall K p secs,
+  (forall j k d, nth_error secs j = Some (k, d) -> d <> AD.DUnk -> kc k = K j) ->
+  grows p (AD.set_remote p secs) /\
+  (mid_kind K p -> mid_kind K (AD.set_remote p secs)) /\
+  (forall i t, List.length p <= i -> nth_error (AD.set_remote p secs) i = Some t ->
+     exists j k d, nth_error secs j = Some (k, d) /\ d <> AD.DUnk /\
+                   AD.t_mid t = Some j /\ AD.t_kind t = k /\ AD.t_sender t = false).
+Proof. exact set_remote_effect. Qed.
+Print Assumptions c16_matching.
+
 (* the premises are satisfiable on non-trivial values: a transceiver created
    from a remote section with remapped payload types and RTX *)
 Example c16_example_from_remote :
@@ -101,3 +161,35 @@ Example c16_example_from_remote :
   r = Ok tt /\
   map c_pt (get_codecs (negotiated_of e KVideo) (set_prefs_from_remote (negotiated_of e KVideo) rcs)) = [100%N; 101%N].
 Proof. vm_compute. split; reflexivity. Qed.
+
+(* the history premises on non-trivial values: a sendonly video offer answered by
+   a transceiver created from it; a local recvonly transceiver with a payload
+   type 0 preference added; a re-offer with a second video section (same codecs,
+   sendrecv) which that local transceiver takes, the first section going inactive *)
+Definition ex16_rcs : list codec :=
+  [ mkCodec "video/VP8" 90000 0 "" [] 100; mkCodec "video/rtx" 90000 0 "apt=100" [] 101 ].
+Definition ex16_K (m : nat) : kind := KVideo.
+Definition ex16_R (k : kind) : list codec := ex16_rcs.
+Definition ex16_os : list mop :=
+  [ MExchange [mkOsec KVideo AD.Sendonly ex16_rcs []];
+    MAdd KVideo AD.Recvonly [mkCodec "video/VP8" 90000 0 "" [] 0] ].
+Definition ex16_offer : list osec :=
+  [ mkOsec KVideo AD.Inactive ex16_rcs []; mkOsec KVideo AD.Sendrecv ex16_rcs [] ].
+
+Example c16_example_history :
+  Forall (mop_ok ex16_K ex16_R) ex16_os /\ offer_ok ex16_K ex16_R ex16_offer /\
+  let s := run_mops (new_mpc (new_engine [mkCodec "video/VP8" 90000 0 "" [] 96; mkCodec "video/rtx" 90000 0 "apt=96" [] 97] [] true) x_empty) ex16_os in
+  match exchange s ex16_offer with
+  | (s', Ok l) => map sec_formats l = [[100%N; 101%N]; [100%N]] /\
+                  map AD.t_mid (m_trs s') = [Some 0; Some 1] /\ map tx_remote (m_ext s') = [true; false]
+  | _ => False
+  end.
+Proof.
+  split; [|split].
+  - constructor; [intros m o H Hk; destruct m as [|m]; cbn in H; [|destruct m; discriminate];
+                   inversion H; subst; split; reflexivity|].
+    constructor; [|constructor]. split; [discriminate|]. intros p [<-|[]]. reflexivity.
+  - intros m o H Hk. destruct m as [|[|m]]; cbn in H; try (destruct m; discriminate);
+      inversion H; subst; split; reflexivity.
+  - vm_compute. repeat split.
+Qed.
